@@ -140,13 +140,14 @@ theorem step3RemoveTrend_affine (c : Cfg) (sig : Bool) (a b : Rat) (x : List Rat
 
 /-- step 3 as a whole: the three detrended samples carry the unit, the trend of `cm_future` scales by `a` -/
 theorem step3_affine (c : Cfg) (o : Oracles) (a b : Rat) (obs H F : List Rat) (yO yH yF : List Int)
-    (hO : obs.length = yO.length) (hH : H.length = yH.length) (hF : F.length = yF.length) :
+    (hlen : c.detrending = true → obs.length = yO.length ∧ H.length = yH.length ∧ F.length = yF.length) :
     step3 c o (affine a b obs) (affine a b H) (affine a b F) yO yH yF
       = (affine a b (step3 c o obs H F yO yH yF).1, affine a b (step3 c o obs H F yO yH yF).2.1,
          affine a b (step3 c o obs H F yO yH yF).2.2.1, scl a (step3 c o obs H F yO yH yF).2.2.2) := by
   unfold step3
-  split_ifs
-  · simp only [step3RemoveTrend_affine c _ a b _ _ hO, step3RemoveTrend_affine c _ a b _ _ hH,
+  split_ifs with hd
+  · obtain ⟨hO, hH, hF⟩ := hlen hd
+    simp only [step3RemoveTrend_affine c _ a b _ _ hO, step3RemoveTrend_affine c _ a b _ _ hH,
       step3RemoveTrend_affine c _ a b _ _ hF]
   · simp only [scl, affine, List.map_map]
     congr 3
@@ -352,6 +353,105 @@ theorem adjustBetween_affine {c : Cfg} (u : Unbounded c) (o : Oracles) {a : Rat}
             simp only [Option.map, pure, Except.pure, Except.map, outAff]
             rw [cdfmap_pairAff scaleAt ha b fitF Fns, cdfmap_pairAff scaleAt ha b fitO Obt,
               cdfmap_pairAff scaleAt ha b fitH Hbt, ppfmap_pairAff scaleAt a b fitOF]
+
+omit L in
+theorem setBound_inf_affine (a b : Rat) (xs : List Rat) (m : List Bool) (bd : ExtRat)
+    (hb : bd = .negInf ∨ bd = .posInf) : setBound (affine a b xs) m bd = (setBound xs m bd).map (affine a b) := by
+  unfold setBound
+  split_ifs
+  · rcases hb with rfl | rfl <;> rfl
+  · rfl
+
+omit L in
+theorem setBound_inf_ok {xs ys : List Rat} {m : List Bool} {bd : ExtRat} (hb : bd = .negInf ∨ bd = .posInf)
+    (h : setBound xs m bd = .ok ys) : ys = xs := by
+  unfold setBound at h
+  split_ifs at h
+  · rcases hb with rfl | rfl <;> simp [ExtRat.toRat, Except.map] at h
+  · exact (Except.ok.inj h).symm
+
+omit L in
+theorem sorted_future_affine {a : Rat} (ha : 0 < a) (b : Rat) (X : List Rat) :
+    takeIdx (affine a b X) (argsort (affine a b X)) = affine a b (takeIdx X (argsort X)) := by
+  rw [argsort_map_affine ha b]
+  exact takeIdx_map _ X _ (argsort_valid X)
+
+theorem step6_affine {c : Cfg} (u : Unbounded c) (o : Oracles) {a : Rat} (ha : 0 < a) (b : Rat)
+    (obs obsFut H X : List Rat) :
+    step6 c (IsiFamily.ofLocScale F scaleAt) o (affine a b obs) (affine a b obsFut) (affine a b H) (affine a b X)
+      = (step6 c (IsiFamily.ofLocScale F scaleAt) o obs obsFut H X).map (affine a b) := by
+  obtain ⟨h1, h2, h3, h4⟩ := u.flags
+  unfold step6 step6Full
+  simp only [h2, h4, Bool.false_eq_true, if_false, sorted_future_affine ha b, sortQ_map_affine ha b, affine_length,
+    valuesBetween_unbounded u, rankOf_map_affine ha b]
+  generalize hFs : takeIdx X (argsort X) = Fs
+  have hFsl : Fs.length = X.length := by rw [← hFs]; simp [takeIdx, argsort_length]
+  generalize Model.IsimipFreq.finalCounts 0 0 ↑Fs.length = cnt
+  generalize Model.IsimipFreq.lowerMask cnt.1 Fs.length = mL
+  generalize Model.IsimipFreq.upperMask cnt.2 Fs.length = mU
+  generalize Model.IsimipFreq.notMask mL mU = mN
+  rw [setBound_inf_affine a b Fs mL _ (Or.inl u.lowerBound)]
+  cases hs1 : setBound Fs mL c.lowerBound with
+  | error e => rfl
+  | ok m1 =>
+    have e1 := setBound_inf_ok (Or.inl u.lowerBound) hs1
+    subst e1
+    simp only [Except.map, bind, Except.bind]
+    rw [setBound_inf_affine a b m1 mU _ (Or.inr u.upperBound)]
+    cases hs2 : setBound m1 mU c.upperBound with
+    | error e => rfl
+    | ok m2 =>
+      have e2 := setBound_inf_ok (Or.inr u.upperBound) hs2
+      subst e2
+      simp only [Except.map, bind, Except.bind, pure, Except.pure]
+      have hval : ∀ (l : List Rat), l.length = m2.length → takeIdx (affine a b l) (rankOf X) = affine a b (takeIdx l (rankOf X)) := by
+        intro l hl
+        apply takeIdx_map
+        intro i hi
+        rw [hl, hFsl]
+        exact rankOf_valid X i hi
+      split_ifs with hany hlen
+      · have hOF : sortQ obsFut ≠ [] := by
+          intro h; rw [h] at hlen; simp at hlen
+        rw [show Py.selectWhere (affine a b m2) mN = affine a b (Py.selectWhere m2 mN) from
+          Lemmas.Lift.selectWhere_map _ _ _, adjustBetween_affine L scaleAt u o ha b _ _ _ _ _ hOF]
+        cases adjustBetween c (IsiFamily.ofLocScale F scaleAt) o (sortQ obs) (sortQ obsFut) (sortQ H)
+            (Py.selectWhere m2 mN) m2 with
+        | error e => rfl
+        | ok r =>
+          simp only [Except.map, outAff]
+          rw [show Model.IsimipFreq.fillWhere (affine a b m2) mN (affine a b r.1)
+              = affine a b (Model.IsimipFreq.fillWhere m2 mN r.1) from fillWhere_map _ _ _ _]
+          rw [hval _ (fillWhere_length _ _ _)]
+      · simp only [hval m2 rfl]
+      · simp only [hval m2 rfl]
+
+/-- **`_apply_on_window` (steps 3–7) of an unbounded variable with the additive trend transfer is equivariant.**
+    Oracles (`linregress` significance decisions, KS decision, ELA tables) are the same on both sides: they are
+    functions of unit-free quantities (trusted base).  Guard: with detrending, one year per value. -/
+theorem applyOnWindow_affine {c : Cfg} (u : Unbounded c) (htm : c.trendMethod = .additive) (o : Oracles) (d : Draws)
+    {a : Rat} (ha : 0 < a) (b : Rat) (obs H X : List Rat) (yO yH yF : List Int)
+    (hlen : c.detrending = true → obs.length = yO.length ∧ H.length = yH.length ∧ X.length = yF.length) :
+    applyOnWindow c (IsiFamily.ofLocScale F scaleAt) o d (affine a b obs) (affine a b H) (affine a b X) yO yH yF
+      = (applyOnWindow c (IsiFamily.ofLocScale F scaleAt) o d obs H X yO yH yF).map (affine a b) := by
+  obtain ⟨h1, h2, h3, h4⟩ := u.flags
+  rw [applyOnWindow_eq, applyOnWindow_eq, step3_affine c o a b obs H X yO yH yF hlen]
+  simp only
+  rw [step4_of_no_bound_threshold_pair c d (by simp [h1]) (by simp [h3]),
+    step4_of_no_bound_threshold_pair c d (by simp [h1]) (by simp [h3])]
+  simp only [Except.bind]
+  rw [step5_affine u htm o ha b]
+  cases step5 c o (step3 c o obs H X yO yH yF).1 (step3 c o obs H X yO yH yF).2.1 (step3 c o obs H X yO yH yF).2.2.1 with
+  | error e => rfl
+  | ok oF =>
+    simp only [Except.map, Except.bind]
+    rw [step6_affine L scaleAt u o ha b]
+    cases step6 c (IsiFamily.ofLocScale F scaleAt) o (step3 c o obs H X yO yH yF).1 oF (step3 c o obs H X yO yH yF).2.1
+        (step3 c o obs H X yO yH yF).2.2.1 with
+    | error e => rfl
+    | ok r =>
+      simp only [Except.map, Except.bind]
+      rw [step7_affine]
 
 end step6
 
